@@ -11,18 +11,24 @@ func vsymReadParams() (int32, bool, bool, bool) {
 }
 
 func VsymC03_Read() {
+	vsymReadWide = vsym_Param("wide") == 1
+	if vsymReadWide && (vsym_Param("sparse") == 1 || vsym_Param("hole") == 1 || vsym_Param("restart") == 1) {
+		return // the wide layout is explored with a dense index, without hole and restart
+	}
 	w := vsymBuildReadWorld(vsymReadParams())
 	vsymCheckRead(w, 3)
 }
 
 // the same world, read while the buffered batch is being uploaded and a newer one has arrived
 func VsymC03_ReadMidFlush() {
+	vsymReadWide = false
 	w := vsymBuildReadWorld(int32(1), vsym_Param("cache") == 1, false, false)
 	vsymCheckReadMidFlush(w, 3)
 }
 
 // two partitions over the same S3 model and the same cache never see each other's bytes
 func VsymC03_OtherPartition() {
+	vsymReadWide = false
 	w := vsymBuildReadWorld(1, true, false, false)
 	other := NewPartitionLog("ns", "t", 1, 0, w.s3, w.l.cache, w.l.cfg, nil, nil, nil)
 	_, err := other.RestoreFromS3(bgCtx())
@@ -33,6 +39,7 @@ func VsymC03_OtherPartition() {
 }
 
 func VsymC03_Twin() {
+	vsymReadWide = false
 	w := vsymBuildReadWorld(1, false, false, false)
 	got, _ := w.l.Read(bgCtx(), 0, 400)
 	vsym_Assert(len(got) != 61+70, "C03/twin")
